@@ -28,8 +28,7 @@ __CPROVER_requires(self->_atomicStats.sessionsCurrent >= 1)
 __CPROVER_requires(G_closeCb_calls < IORA_SAT && G_close_calls < IORA_SAT && G_delEpoll_calls < IORA_SAT)
 __CPROVER_assigns(s->closed, self->_peerIndex, self->_sessions.has, self->_sessions.val, self->_tags,
                   self->_atomicStats.closed, self->_atomicStats.sessionsCurrent, self->_cbMutex.held, self->_sessionRwMutex.held,
-                  G_closeCb_calls, G_closeCb_sid, G_closeCb_erased, G_closeCb_locked, G_closeCb_why,
-                  G_close_calls, G_close_fd, G_delEpoll_calls, G_delEpoll_fd, G_delEpoll_closes_before)
+                  G.cl)
 __CPROVER_frees(s)
 /* X1a exactly one close notification */ __CPROVER_ensures(G_closeCb_calls == __CPROVER_old(G_closeCb_calls) + (CN_CBSET ? 1u : 0u))
 /* X1b carrying this session's id and the reason */ __CPROVER_ensures(CN_CBSET ==> (G_closeCb_sid == CN_SID0 && G_closeCb_why == why))
@@ -38,6 +37,8 @@ __CPROVER_frees(s)
 /* X2c table frame: other ids keep their entry */ __CPROVER_ensures(CN_SID0 != GSID ==> (self->_sessions.has == __CPROVER_old(self->_sessions.has) && self->_sessions.val == __CPROVER_old(self->_sessions.val)))
 /* X3a closed counter +1 exactly once */ __CPROVER_ensures(self->_atomicStats.closed == __CPROVER_old(self->_atomicStats.closed) + 1)
 /* X3b gauge -1 exactly once, never below zero */ __CPROVER_ensures(self->_atomicStats.sessionsCurrent == __CPROVER_old(self->_atomicStats.sessionsCurrent) - 1)
+/* X5 the erase destroys the session object (unique_ptr): any later use is a pointer obligation for the caller */ __CPROVER_ensures(CN_SID0 == GSID ==> __CPROVER_was_freed(s))
+/* X5b (witness model) a session under another id than the witness id is not modelled as destroyed */ __CPROVER_ensures(CN_SID0 != GSID ==> !__CPROVER_was_freed(s))
 /* X4 marked closed (observable while the object exists, i.e. for a witness id other than this one) */ __CPROVER_ensures(CN_SID0 != GSID ==> s->closed)
 /* U1 peer-index FRAME: an entry that maps to ANOTHER session is left alone (C06: closing some other session never redirects) */ __CPROVER_ensures((__CPROVER_old(self->_peerIndex.has) && __CPROVER_old(self->_peerIndex.val) != CN_SID0) ==> (self->_peerIndex.has && self->_peerIndex.val == __CPROVER_old(self->_peerIndex.val)))
 /* U1b peer-index frame: no entry appears */ __CPROVER_ensures(!__CPROVER_old(self->_peerIndex.has) ==> !self->_peerIndex.has)
